@@ -228,5 +228,30 @@ def replay(prop, path):
     return 0
 
 
+def safe_main():
+    """a check never dies with a traceback: an exception inside the harness (an implementation that
+    behaves in a way the observers cannot even record, say) means the correspondence could not be
+    established, which is reported as such, with the traceback as the replay"""
+    try:
+        return main()
+    except SystemExit:
+        raise
+    except BaseException:       # noqa
+        import traceback
+        tb = traceback.format_exc()
+        import re
+        pid = next((x for x in sys.argv[1:] if re.fullmatch(r"C\d\d", x)), "?")
+        try:
+            path = core.write_replay(pid, os.environ.get("VERIF_SEED", "0"), 99,
+                                     {"property": pid, "kind": "harness-exception",
+                                      "what": "the harness raised while evaluating the implementation; the correspondence "
+                                              "between model and implementation could not be established", "traceback": tb})
+        except Exception:       # noqa
+            path = "(replay could not be written)"
+        sys.stderr.write(tb)
+        print("VIOLATION property=%s replay=%s no-failing-input-found" % (pid, path))
+        return 1
+
+
 if __name__ == "__main__":
-    sys.exit(main())
+    sys.exit(safe_main())
